@@ -127,3 +127,21 @@ claim(
     TB, "sibling cross-check of match arms and of paired recursive walkers (enum coverage sets, per-arm callee sets)",
     "DESIGN.md §2 C12",
 )
+claim(
+    "C06", "other",
+    "Flow rules on the no-change path of the hot swap: VM — on the no-plan branch the new state buffer is a length-preserving copy "
+    "of the old one, no slice-length-precondition copies; WASM — snapshot precedes engine replacement, the equal-layout branch "
+    "installs a clone of the snapshot, every success path installs a state buffer, per-engine settings are forwarded after the "
+    "replacement; planner's equality short-cut (C08.apply). Sample equality and the effect of re-running main are not decided.",
+    TB, "value-must-flow-from and must-precede rules on enumerated symbolic paths of the swap functions",
+    "DESIGN.md §2 C06",
+)
+claim(
+    "C07", "other",
+    "Structural necessary conditions for state-preserving hot swap after an edit: payloads are sent only on Ok arms; WASM payloads "
+    "carry the compiler's layout (literal None audited); migration destination buffers are zero-filled on both runtimes (sibling "
+    "agreement); the migration-plan rules of C08 and the layout-order rule of C05 hold. Which sites an edit leaves untouched and "
+    "their continuity are not decided.",
+    TB, "dominance of Result arms over sends, constant-argument dataflow, sibling agreement, shared C08/C05 rules",
+    "DESIGN.md §2 C07",
+)
